@@ -76,4 +76,246 @@ def derLen (n : Nat) : Bytes :=
   else if n < 0x1000000 then 0x83 :: natToBE 3 n
   else 0x84 :: natToBE 4 n
 
+
+/-! ## INTEGER -/
+
+/-- `checkASN1Integer`: non-empty and minimally encoded -/
+def checkASN1Integer : Bytes → Bool
+  | [] => false
+  | [_] => true
+  | b0 :: b1 :: _ =>
+    !((b0 == 0 && b1 &&& 0x80 == 0) || (b0 == 0xff && b1 &&& 0x80 == 0x80))
+
+/-- the two's-complement value of big-endian `bs` (0 for the empty string) -/
+def twosVal (bs : Bytes) : Int :=
+  match bs with
+  | [] => 0
+  | b0 :: _ => if b0 &&& 0x80 == 0x80 then (natOfBE bs : Int) - (256 : Int) ^ bs.length else natOfBE bs
+
+/-- `asn1Signed`: at most 8 bytes; shift-in then sign-extend = two's-complement value -/
+def asn1Signed (bs : Bytes) : Option Int :=
+  if bs.length > 8 then none else some (twosVal bs)
+
+/-- `asn1Unsigned` (called on non-empty `bs`): at most 8 significant bytes, non-negative -/
+def asn1Unsigned (bs : Bytes) : Option Nat :=
+  match bs with
+  | [] => none          -- Go would index n[0] and panic; unreachable after checkASN1Integer
+  | b0 :: _ =>
+    if bs.length > 9 || (bs.length == 9 && b0 != 0) then none else
+    if b0 &&& 0x80 != 0 then none else
+    some (natOfBE bs)
+
+/-- the INTEGER (or `tag`) contents after the minimality check -/
+def readIntBody (tag : UInt8) (s : Bytes) : Option (Bytes × Bytes) :=
+  match readASN1Tag tag s with
+  | some (b, r) => if checkASN1Integer b then some (b, r) else none
+  | none => none
+
+/-- `ReadASN1Int64WithTag` / readASN1Int64 -/
+def readInt64Tag (tag : UInt8) (s : Bytes) : Option (Int × Bytes) :=
+  match readIntBody tag s with
+  | some (b, r) => (asn1Signed b).map fun v => (v, r)
+  | none => none
+
+/-- `ReadASN1Integer(*intN)`: `bits` ∈ {8,16,32,64} (`int` = 64) -/
+def readSigned (bits : Nat) (s : Bytes) : Option (Int × Bytes) :=
+  match readInt64Tag 2 s with
+  | some (v, r) => if v < -(2 : Int) ^ (bits - 1) || v ≥ (2 : Int) ^ (bits - 1) then none else some (v, r)
+  | none => none
+
+/-- `ReadASN1Integer(*uintN)` -/
+def readUnsignedInt (bits : Nat) (s : Bytes) : Option (Nat × Bytes) :=
+  match readIntBody 2 s with
+  | some (b, r) =>
+    match asn1Unsigned b with
+    | some v => if v ≥ 2 ^ bits then none else some (v, r)
+    | none => none
+  | none => none
+
+/-- `ReadASN1Integer(*big.Int)` -/
+def readBigInt (s : Bytes) : Option (Int × Bytes) :=
+  (readIntBody 2 s).map fun (b, r) => (twosVal b, r)
+
+def stripZeros : Bytes → Bytes
+  | 0 :: b :: r => stripZeros (b :: r)
+  | bs => bs
+
+/-- `ReadASN1Integer(*[]byte)`: non-negative only, leading zeros removed (zero = one zero byte) -/
+def readIntBytes (s : Bytes) : Option (Bytes × Bytes) :=
+  match readIntBody 2 s with
+  | some (b, r) =>
+    match b with
+    | b0 :: _ => if b0 &&& 0x80 == 0x80 then none else some (stripZeros b, r)
+    | [] => none
+  | none => none
+
+/-- `ReadASN1Enum` (`int` is 64 bits) -/
+def readEnum (s : Bytes) : Option (Int × Bytes) := readInt64Tag 10 s
+
+/-! ## BOOLEAN, BIT STRING, OCTET STRING -/
+
+def readBool (s : Bytes) : Option (Bool × Bytes) :=
+  match readASN1Tag 1 s with
+  | some ([b], r) => if b == 0 then some (false, r) else if b == 0xff then some (true, r) else none
+  | _ => none
+
+/-- `ReadASN1BitString`: (BitLength, Bytes) -/
+def readBitString (s : Bytes) : Option ((Nat × Bytes) × Bytes) :=
+  match readASN1Tag 3 s with
+  | some (pad :: bytes, r) =>
+    if pad > 7 then none else
+    match bytes.getLast? with
+    | none => if pad != 0 then none else some ((0, []), r)
+    | some last =>
+      if last &&& ((1 <<< pad) - 1) != 0 then none else some ((bytes.length * 8 - pad.toNat, bytes), r)
+  | _ => none
+
+/-- `ReadASN1BitStringAsBytes` -/
+def readBitStringAsBytes (s : Bytes) : Option (Bytes × Bytes) :=
+  match readASN1Tag 3 s with
+  | some (pad :: bytes, r) => if pad != 0 then none else some (bytes, r)
+  | _ => none
+
+/-! ## OBJECT IDENTIFIER -/
+
+/-- `readBase128Int`: `fuel` = 5 − i, `first` = (i == 0) -/
+def readBase128 : Nat → Bool → Nat → Bytes → Option (Nat × Bytes)
+  | _, _, _, [] => none                           -- truncated
+  | 0, _, _, _ :: _ => none                       -- i == 5
+  | fuel + 1, first, ret, b :: s =>
+    if ret ≥ 2 ^ 24 then none else
+    if first && b == 0x80 then none else
+    let ret := ret * 128 + (b &&& 0x7f).toNat
+    if b &&& 0x80 == 0 then some (ret, s) else readBase128 fuel false ret s
+
+def readArcs : Nat → Bytes → Option (List Nat)
+  | _, [] => some []
+  | 0, _ :: _ => none
+  | fuel + 1, s =>
+    match readBase128 5 true 0 s with
+    | some (v, s') => (readArcs fuel s').map (v :: ·)
+    | none => none
+
+def readOID (s : Bytes) : Option (List Nat × Bytes) :=
+  match readASN1Tag 6 s with
+  | some (b, r) =>
+    if b.isEmpty then none else
+    match readBase128 5 true 0 b with
+    | some (v, b') =>
+      let hd := if v < 80 then [v / 40, v % 40] else [2, v - 80]
+      (readArcs b'.length b').map fun arcs => (hd ++ arcs, r)
+    | none => none
+  | none => none
+
+/-! ## optional variants -/
+
+def peekTag (tag : UInt8) (s : Bytes) : Bool :=
+  match s with
+  | [] => false
+  | b :: _ => b == tag
+
+/-- `ReadOptionalASN1`: (present, contents, rest) -/
+def readOptional (tag : UInt8) (s : Bytes) : Option (Bool × Bytes × Bytes) :=
+  if peekTag tag s then
+    (readASN1Tag tag s).map fun (b, r) => (true, b, r)
+  else some (false, [], s)
+
+/-- `SkipOptionalASN1` -/
+def skipOptional (tag : UInt8) (s : Bytes) : Option Bytes :=
+  if peekTag tag s then (readASN1Tag tag s).map (·.2) else some s
+
+/-- explicit-tag wrapper: the inner reader must consume the wrapper's contents completely -/
+def readOptionalWith {α : Type} (inner : Bytes → Option (α × Bytes)) (dflt : α) (tag : UInt8) (s : Bytes) :
+    Option (α × Bytes) :=
+  match readOptional tag s with
+  | some (false, _, r) => some (dflt, r)
+  | some (true, b, r) =>
+    match inner b with
+    | some (v, []) => some (v, r)
+    | _ => none
+  | none => none
+
+/-- `ReadOptionalASN1Boolean`: unlike the INTEGER / OCTET STRING variants it does not require the
+    wrapper's contents to be fully consumed -/
+def readOptionalBool (dflt : Bool) (tag : UInt8) (s : Bytes) : Option (Bool × Bytes) :=
+  match readOptional tag s with
+  | some (false, _, r) => some (dflt, r)
+  | some (true, b, r) => (readBool b).map fun (v, _) => (v, r)
+  | none => none
+
+/-- `ReadOptionalASN1OctetString`: (present, octets, rest) -/
+def readOptionalOctets (tag : UInt8) (s : Bytes) : Option (Bool × Bytes × Bytes) :=
+  match readOptional tag s with
+  | some (false, _, r) => some (false, [], r)
+  | some (true, b, r) =>
+    match readASN1Tag 4 b with
+    | some (o, []) => some (true, o, r)
+    | _ => none
+  | none => none
+
+/-! ## Add* builders (growable builder; each returns the bytes appended, `none` = builder error) -/
+
+/-- AddASN1(tag, body) for an already computed body (no overflow below 4 GiB) -/
+def addASN1 (tag : UInt8) (body : Bytes) : Option Bytes :=
+  if tag &&& 0x1f == 0x1f then none else
+  if body.length > 0xfffffffe then none else
+  some (tag :: (derLen body.length ++ body))
+
+/-- number of bytes `addASN1Signed` emits: `for i := v; i >= 0x80 || i < -0x80; i >>= 8 { length++ }` -/
+def signedLen : Nat → Int → Nat
+  | 0, _ => 1
+  | fuel + 1, i => if i ≥ 0x80 || i < -0x80 then 1 + signedLen fuel (i / 256) else 1
+
+/-- the low `n` bytes of `v` (two's complement), big-endian: `v >> ((n-1)*8) & 0xff …` -/
+def intBytes (n : Nat) (v : Int) : Bytes := natToBE n (v % (256 : Int) ^ n).toNat
+
+/-- `addASN1Signed(tag, v)`, `v` an int64 -/
+def addSigned (tag : UInt8) (v : Int) : Option Bytes := addASN1 tag (intBytes (signedLen 8 v) v)
+
+def unsignedLen : Nat → Nat → Nat
+  | 0, _ => 1
+  | fuel + 1, i => if i ≥ 0x80 then 1 + unsignedLen fuel (i / 256) else 1
+
+/-- `AddASN1Uint64` -/
+def addUint64 (v : Nat) : Option Bytes := addASN1 2 (intBytes (unsignedLen 9 v) v)
+
+/-- number of bytes of the minimal two's complement of any integer -/
+def bigLen (v : Int) : Nat := signedLen (v.natAbs + 1) v
+
+/-- `AddASN1BigInt` -/
+def addBigInt (v : Int) : Option Bytes := addASN1 2 (intBytes (bigLen v) v)
+
+def addOctetString (bs : Bytes) : Option Bytes := addASN1 4 bs
+def addBitString (bs : Bytes) : Option Bytes := addASN1 3 (0 :: bs)
+def addBool (v : Bool) : Option Bytes := addASN1 1 [if v then 0xff else 0]
+def addNull : Bytes := [5, 0]
+
+/-- `addBase128Int(n)` for an int64 `n` (a negative `n` emits nothing: the length loop never runs) -/
+def base128Len : Nat → Nat → Nat
+  | 0, _ => 0
+  | fuel + 1, i => if i > 0 then 1 + base128Len fuel (i / 128) else 0
+
+def base128Digits : Nat → Nat → Bytes
+  | 0, _ => []
+  | i + 1, n =>
+    let o := UInt8.ofNat ((n / 128 ^ i) % 128)
+    (if i != 0 then o ||| 0x80 else o) :: base128Digits i n
+
+def addBase128 (n : Int) : Bytes :=
+  if n < 0 then [] else
+  let n := n.toNat
+  base128Digits (if n == 0 then 1 else base128Len 10 n) n
+
+/-- wrap to int64 -/
+def wrap64 (x : Int) : Int := (x + 2 ^ 63) % 2 ^ 64 - 2 ^ 63
+
+/-- `AddASN1ObjectIdentifier` (arcs are Go ints) -/
+def addOID (oid : List Int) : Option Bytes :=
+  match oid with
+  | a :: b :: rest =>
+    if a > 2 || (a ≤ 1 && b ≥ 40) then none else
+    if oid.any (· < 0) then none else
+    addASN1 6 (addBase128 (wrap64 (a * 40 + b)) ++ (rest.map addBase128).flatten)
+  | _ => none
+
 end XC.C23
